@@ -2,7 +2,7 @@
     list-encoded operands.  Evaluated inside Coq (vm_compute) and, for volume,
     through extraction (Extract.v). *)
 From Coq Require Import ZArith List.
-From FastorV Require Import Base.Scalar Base.Mem Model.Cfg Model.Matmul Model.TMatmul Model.Expr Model.ExprInt Model.Reduce Base.Shape Model.Views Model.RandomViews.
+From FastorV Require Import Base.Scalar Base.Mem Model.Cfg Model.Matmul Model.TMatmul Model.Expr Model.ExprInt Model.Reduce Base.Shape Model.Views Model.RandomViews Model.Layout.
 Import ListNotations.
 
 Definition run_matmul_Z (c : cfg) (t : ety) (M K N : nat) (a b : list Z) : list Z :=
@@ -60,3 +60,7 @@ Definition run_idx_it_range (ncols : nat) (it0 : list nat) (d : nat) (r : Z * Z 
   let '(f, l, s) := r in idx_it_range ncols it0 (to_nrange (normnd (Z.of_nat d) (mkU f l s))).
 Definition run_idx_range_it (ncols : nat) (d : nat) (r : Z * Z * Z) (it1 : list nat) : list nat :=
   let '(f, l, s) := r in idx_range_it ncols (to_nrange (normnd (Z.of_nat d) (mkU f l s))) it1.
+
+(** C20: layout conversions on list-encoded data (values are positions) *)
+Definition run_torowmajor (dims : list nat) : list nat := map (torowmajor dims (fun p => p)) (seq 0 (prod dims)).
+Definition run_tocolumnmajor (dims : list nat) : list nat := map (tocolumnmajor dims (fun p => p)) (seq 0 (prod dims)).
